@@ -85,6 +85,26 @@ def snapshot(obj):
 
 
 OPTS = {}
+LOADOPTS = {}
+
+# loader keyword arguments by format family (the empty choice dominates); what each one legitimately changes is encoded in compare_content
+LOAD_CHOICES = {
+    "obj": [{}, {}, {}, {"maintain_order": True}, {"group_material": False}, {"skip_materials": True}, {"process": True}],
+    "glb": [{}, {}, {}, {"merge_primitives": True}, {"skip_materials": True}, {"ignore_broken": True}, {"process": True}],
+    "ply": [{}, {}, {}, {"skip_materials": True}, {"fix_texture": False}, {"prefer_color": "face"}, {"prefer_color": "vertex"}, {"process": True}],
+    "other": [{}, {}, {}, {"process": True}],
+}
+
+
+def load_family(fmt):
+    base = fmt.split("_", 1)[1] if fmt.startswith(("zip_", "targz_", "tarbz2_", "bz2_")) else fmt
+    if base in ("obj", "obj_mtl"):
+        return "obj"
+    if base in ("glb", "gltf"):
+        return "glb"
+    if base in ("ply", "ply_ascii"):
+        return "ply"
+    return "other"
 
 
 def compare_content(got, want, tol_rel, ctx, oracle, fmt, exact=False):
@@ -95,6 +115,13 @@ def compare_content(got, want, tol_rel, ctx, oracle, fmt, exact=False):
             continue
         if key == "n_instances" and fmt in fw.FLATTENS:
             continue  # a flattening writer stores the placed triangles, not the instances
+        if LOADOPTS.get("skip_materials") and key in ("corner_uv", "corner_colors", "face_colors", "colors"):
+            continue  # the caller asked the loader not to read materials / colours
+        if LOADOPTS.get("process") and key in ("corner_uv", "corner_colors", "corner_weight"):
+            continue  # merging coincident vertices keeps one of their colours / uv by design (positions decide, not attributes)
+        order_free = bool(LOADOPTS.get("group_material") is False or LOADOPTS.get("merge_primitives"))
+        if order_free and key in ("corner_uv", "corner_colors", "face_colors", "face_quality", "corner_weight"):
+            continue  # regrouping by material may reorder faces: per-face data is compared only in the default order
         if key not in got:
             if key in CARRIES and fmt not in CARRIES[key]:
                 continue  # colours / uv / attributes are demanded only where the format carries them
@@ -102,7 +129,7 @@ def compare_content(got, want, tol_rel, ctx, oracle, fmt, exact=False):
                 continue  # the PLY writer stores texture coordinates as vertex attributes, which the option switched off
             ctx.fail(oracle, fmt + "-" + key, "missing after load")
         a, b = got[key], want[key]
-        if key == "tris_sorted" and np.shape(a) == np.shape(b) and len(b):
+        if key in ("tris_sorted", "tris") and (key == "tris_sorted" or order_free) and np.shape(a) == np.shape(b) and len(b):
             # a multiset of placed triangles: match by nearest centroid (sorting by rounded centroids is not stable under quantisation)
             from scipy.spatial import cKDTree
 
@@ -156,6 +183,7 @@ class C08(World):
     def swarm(self, rng):
         kind, fmt = rng.choice(fw.ALL_PAIRS)
         return {"kind": kind, "fmt": fmt, "route": rng.choice(ROUTES[kind]), "transport": rng.choice(TRANSPORTS), "digits": rng.choice([None, None, 6, 12]),
+                "loadopts": rng.choice(LOAD_CHOICES[load_family(fmt)]) if kind in ("mesh", "scene", "points") and fmt not in ("dict", "dict64") else {},
                 "opts": {"vertex_normal": rng.choice([None, True, False]), "include_attributes": rng.choice([None, True, False]), "include_normals": rng.choice([None, True, False]),
                          "include_color": rng.choice([None, True]), "merge_buffers": rng.choice([None, True]), "embed_buffers": rng.choice([None, True]), "unitize_normals": rng.choice([None, False])}}
 
@@ -192,6 +220,7 @@ class C08(World):
         kwargs = {}
         if cfg["kind"] in ("mesh", "scene", "points"):
             kwargs["process"] = False
+        kwargs.update(cfg.get("loadopts") or {})
         try:
             loaded, fobj = fw.load_payload(files, main, ft, route=cfg["route"], transport=cfg["transport"], scratch=scratch, kwargs=kwargs)
         except (KeyboardInterrupt, SystemExit, MemoryError):
@@ -204,6 +233,8 @@ class C08(World):
         kind, fmt = cfg["kind"], cfg["fmt"]
         OPTS.clear()
         OPTS.update(cfg.get("opts") or {})
+        LOADOPTS.clear()
+        LOADOPTS.update(cfg.get("loadopts") or {})
         r = op["geom"]
         obj = fw.build_geometry(r, cfg["fmt"])
         shape = r.get("shape", "")
@@ -236,13 +267,16 @@ class C08(World):
             ctx.fail("gen1", fmt + "-type", f"loaded object {type(g1).__name__}: {e}")
         ctx.reach(kind, shape or r.get("colors"), r.get("colors"), fmt, cfg["route"], cfg["transport"])
         ctx.count("check:gen1")
-        compare_content(got, want, fmt_tol(fmt, cfg.get("digits")), ctx, "gen1", fmt)
+        tol1 = fmt_tol(fmt, cfg.get("digits"))
+        if LOADOPTS.get("process"):
+            tol1 = max(tol1, 1e-8)  # merging vertices moves a coordinate by at most tol.merge
+        compare_content(got, want, tol1, ctx, "gen1", fmt)
         # generation 2: quantisation is idempotent
         files_b, main_b, ft_b = self._export(g1, fmt, cfg, ctx, "gen2-export")
         loaded2 = self._load(files_b, main_b, ft_b, cfg, scratch, ctx, "gen2", fmt)
         g2 = fw.normalise_loaded(loaded2, kind)
         ctx.count("check:gen2")
-        compare_content(fw.content(g2), got, fmt_tol(fmt, cfg.get("digits")) * 4, ctx, "gen2", fmt)
+        compare_content(fw.content(g2), got, tol1 * 4, ctx, "gen2", fmt)
         ctx.event(kind, fmt, cfg["route"], cfg["transport"], len(files[main]))
 
     def simplify_program(self, program):
